@@ -51,7 +51,10 @@ def proof_obligations(pid):
         # try to name the failing file / lemma
         return res
     bad = []
-    for f in glob.glob(os.path.join(COQ, 'theories', '**', '*.v'), recursive=True):
+    # every file of the development (those listed in _CoqProject, plus the property files and Extract.v)
+    listed = [os.path.join(COQ, l.strip()) for l in open(os.path.join(COQ, '_CoqProject')) if l.strip().endswith('.v')]
+    listed += glob.glob(os.path.join(COQ, 'theories', 'props', '*.v')) + [os.path.join(COQ, 'theories', 'Extract.v')]
+    for f in listed:
         src = strip_comments(open(f).read())
         for m in FORBIDDEN.finditer(src):
             bad.append('%s: %s' % (os.path.relpath(f, VERIF), m.group(0)))
